@@ -203,6 +203,9 @@ func (c14) ID() string { return "C14" }
 func (c14) Plan(tier string) []fw.Unit {
 	us := planEnum("C14", tier, len(c14Queries()), 8)
 	us = append(us, fw.Unit{Check: "C14", Kind: "when-cap", Tier: tier, Spec: fw.Spec(enumSpec{})})
+	for sh := 0; sh < 8; sh++ {
+		us = append(us, fw.Unit{Check: "C14", Kind: "when-gate", Tier: tier, Spec: fw.Spec(enumSpec{Shard: sh, Shards: 8})})
+	}
 	return us
 }
 
@@ -236,6 +239,9 @@ func c14Desc(seq []c14In) []string {
 }
 
 func (c14) Run(u fw.Unit) fw.Result {
+	if u.Kind == "when-gate" {
+		return c14WhenGate(u)
+	}
 	if u.Kind == "when-cap" {
 		return c14WhenCap(u)
 	}
@@ -341,6 +347,84 @@ func (c14) Run(u fw.Unit) fw.Result {
 
 func stripID(s string) string { return s }
 
+// c14WhenGate: WHEN on a separate gate column (sharded).
+func c14WhenGate(u fw.Unit) fw.Result {
+	sp := parseEnum(u)
+	a := newAcc("C14", "analytic-when-gate")
+	idx := 0
+	// WHEN on a separate gate column with NULL-capable values and a wrapper expression: (1) rows passing WHEN see
+	// exactly what they see without the failing rows, (2) a row failing WHEN repeats the partition's previous
+	// outputs (NULL before the first passing row) - including a previous output that was NULL
+	sqlGate := "SELECT k, v - lag(v) OVER (PARTITION BY k WHEN g > 0) AS d, acc_sum(v) OVER (PARTITION BY k WHEN g > 0) AS s, latest(v) OVER (PARTITION BY k WHEN g > 0) AS lt FROM stream"
+	gateVals := []any{1.0, 2.0, nil}
+	for L := 1; L <= 4; L++ {
+		sequences(L, 12, func(ix []int) {
+			idx++
+			if idx%sp.Shards != sp.Shard {
+				return
+			}
+			var rows, passing []Row
+			var passIdx []int
+			for i, x := range ix {
+				row := Row{"k": []string{"a", "b"}[x/6], "g": (x / 3) % 2, "v": gateVals[x%3], "id": i + 1}
+				rows = append(rows, row)
+				if row["g"] == 1 {
+					passing = append(passing, row)
+					passIdx = append(passIdx, i)
+				}
+			}
+			res, execErr, st, _ := syncEval(sqlGate, rows)
+			a.r.Evaluations++
+			a.r.States++
+			a.r.Transitions += int64(len(rows))
+			cs := map[string]any{"sql": sqlGate, "rows": rows}
+			if execErr != "" || st != sched.StatusOK {
+				a.fail("C14|when|exec", execErr+" "+st.String(), cs, nil, nil)
+				return
+			}
+			if len(passing) == 0 || len(passing) == len(rows) {
+				return
+			}
+			a.r.Nontrivial++
+			solo, _, _, _ := syncEval(sqlGate, passing)
+			cols := []string{"d", "s", "lt"}
+			for j, i := range passIdx {
+				g, w := res[i].Row, solo[j].Row
+				for _, c := range cols {
+					if g == nil || w == nil || js(g[c]) != js(w[c]) {
+						a.fail("C14|when|gated-rows-influence-state", fmt.Sprintf("%s: row %d (passes WHEN) gives %s with the non-passing rows present, %s without them; rows %s", sqlGate, i+1, js(g), js(w), js(rows)), cs, js(w), js(g))
+						return
+					}
+				}
+			}
+			last := map[string]Row{}
+			for i, row := range rows {
+				k := row["k"].(string)
+				g := res[i].Row
+				if g == nil {
+					a.fail("C14|when|row-missing", fmt.Sprintf("%s: row %d produced no result; rows %s", sqlGate, i+1, js(rows)), cs, nil, nil)
+					return
+				}
+				if row["g"] == 0 {
+					for _, c := range cols {
+						var want any
+						if prev, ok := last[k]; ok {
+							want = prev[c]
+						}
+						if js(g[c]) != js(want) {
+							a.fail("C14|when|failing-row-does-not-repeat-last-result|col="+c, fmt.Sprintf("%s: row %d fails WHEN and gives %s=%s, the partition's previous result is %s; rows %s", sqlGate, i+1, c, js(g[c]), js(want), js(rows)), cs, js(want), js(g[c]))
+							return
+						}
+					}
+				}
+				last[k] = g
+			}
+		})
+	}
+	a.sample(map[string]any{"when_sql": sqlGate, "alphabet": "k in a|b x g in 0|1 x v in 1|2|NULL", "max_len": 4})
+	return a.result()
+}
+
 // c14WhenCap: WHEN gating (metamorphic: rows failing WHEN do not influence the values at rows
 // passing it) and the partition cap (above the cap only totality is asserted).
 func c14WhenCap(u fw.Unit) fw.Result {
@@ -426,7 +510,7 @@ func c14WhenCap(u fw.Unit) fw.Result {
 func (c14) Describe(tier string) fw.Description {
 	return fw.Description{
 		Level: "model_checking",
-		Rule: "6 queries (lag with offsets/defaults + latest; acc_sum/count/avg and acc_max-acc_min; had_changed; v - lag(v) with a non-analytic WHERE; unpartitioned lag/acc/latest; WHERE had_changed(...) with acc_count) x all row sequences of length 1..L over 3 partition keys (strings; and float64 keys differing only beyond float32 precision) x v in {1,2,NULL,missing}, through EmitSync on the real engine against per-partition reference state machines; every 5th sequence also through Emit + sync sink (sync == async), every 3rd also with partition a alone (isolation); WHEN gating checked metamorphically over all sequences of length <= 5 over 2 keys x 3 values (values at rows passing WHEN must not depend on rows failing it); partition cap 2 over all 3-key sequences of length 5 (exact within the cap, totality above); non-trivial = the reference defines at least one output",
+		Rule: "6 queries (lag with offsets/defaults + latest; acc_sum/count/avg and acc_max-acc_min; had_changed; v - lag(v) with a non-analytic WHERE; unpartitioned lag/acc/latest; WHERE had_changed(...) with acc_count) x all row sequences of length 1..L over 3 partition keys (strings; and float64 keys differing only beyond float32 precision) x v in {1,2,NULL,missing}, through EmitSync on the real engine against per-partition reference state machines; every 5th sequence also through Emit + sync sink (sync == async), every 3rd also with partition a alone (isolation); WHEN gating checked over all sequences of length <= 5 over 2 keys x 3 values and of length <= 4 over 2 keys x gate 0|1 x v in {1,2,NULL} with a wrapper expression (values at rows passing WHEN must not depend on rows failing it; a row failing WHEN repeats the partition's previous outputs, NULL included); partition cap 2 over all 3-key sequences of length 5 (exact within the cap, totality above); non-trivial = the reference defines at least one output",
 		Bounds:      map[string]any{"max_len": map[string]int{"quick": 4, "thorough": 5}, "keys": 3, "values": []string{"1", "2", "NULL", "missing"}},
 		Assumptions: []string{"definitions of lag/latest/had_changed/acc_* taken from the documentation comments of functions/functions_analytical.go and functions/analytic_acc.go (the online analytic docs are not in the repository)", "a first row with NULL under had_changed(true, v) may count as a change or not"},
 	}
